@@ -1,10 +1,11 @@
 (* C20 — the quaternion fit returns the optimal proper rotation and places fragments.
    Statements only (copied from Proofs/QuatProofs.v by harness/mkprops.py).  k_q2mat, k_rotmol1, k_form1..3,
    k_centroid*, k_rmsd*, k_minus_vect, k_plus_vect are the expression DAGs traced from shelxfile/fit/quatfit.py
-   in /repo's current source (coq/Gen/K_quat.v).  Not proved: convergence of the Jacobi sweeps (the eigen
-   certificate assumed by C20_eigen_max is checked numerically per sample by the harness) and that every proper
-   rotation is the matrix of some unit quaternion (Euler-Rodrigues), so optimality is stated over unit quaternions. *)
-From SX Require Import Base.RTac Gen.K_quat Spec.GeomSpec Spec.QuatSpec Proofs.QuatProofs.
+   in /repo's current source (coq/Gen/K_quat.v).  Every proper rotation is the matrix q2mat builds from some unit
+   quaternion (C20_euler_rodrigues), so optimality holds against ALL proper rotations (C20_optimal_all_rotations).
+   Not proved: convergence of the Jacobi sweeps (the eigen certificate assumed by C20_eigen_max is checked numerically
+   per sample by the harness). *)
+From SX Require Import Base.RTac Gen.K_quat Spec.GeomSpec Spec.QuatSpec Proofs.QuatProofs Proofs.RodriguesProofs.
 Import ListNotations.
 Open Scope R_scope.
 
@@ -88,6 +89,29 @@ Print Assumptions C20_centroid3_is_mean.
 Theorem C20_unit_quaternion_example : qnorm2 1 0 0 0 = 1 /\ mv (Qmat 1 0 0 0) (1, 2, 3) = (1, 2, 3).
 Proof. exact (unit_quaternion_example ). Qed.
 Print Assumptions C20_unit_quaternion_example.
+
+Theorem C20_euler_rodrigues (m : mat) : orthogonal m -> mdet m = 1 ->
+  exists q0 q1 q2 q3, qnorm2 q0 q1 q2 q3 = 1 /\ Qmat q0 q1 q2 q3 = m.
+Proof. exact (euler_rodrigues m). Qed.
+Print Assumptions C20_euler_rodrigues.
+
+Theorem C20_optimal_all_rotations q0 q1 q2 q3 l : qnorm2 q0 q1 q2 q3 = 1 ->
+  (forall p0 p1 p2 p3, qnorm2 p0 p1 p2 p3 = 1 -> qf4 (form_n l) p0 p1 p2 p3 <= qf4 (form_n l) q0 q1 q2 q3) ->
+  forall m, orthogonal m -> mdet m = 1 -> resid_mat (Qmat q0 q1 q2 q3) l <= resid_mat m l.
+Proof. exact (optimal_all_rotations q0 q1 q2 q3 l). Qed.
+Print Assumptions C20_optimal_all_rotations.
+
+Theorem C20_exact_copy_zero_all q0 q1 q2 q3 l m : qnorm2 q0 q1 q2 q3 = 1 -> orthogonal m -> mdet m = 1 ->
+  (forall r0 r1 r2 r3, qnorm2 r0 r1 r2 r3 = 1 -> qf4 (form_n l) r0 r1 r2 r3 <= qf4 (form_n l) q0 q1 q2 q3) ->
+  (forall s t, In (s, t) l -> t = mv m s) ->
+  resid_mat (Qmat q0 q1 q2 q3) l = 0.
+Proof. exact (exact_copy_zero_all q0 q1 q2 q3 l m). Qed.
+Print Assumptions C20_exact_copy_zero_all.
+
+Theorem C20_half_turn_example :
+  let m : mat := ((-1, 0, 0), (0, -1, 0), (0, 0, 1)) in orthogonal m /\ mdet m = 1 /\ Qmat 0 0 0 1 = m.
+Proof. exact (half_turn_example ). Qed.
+Print Assumptions C20_half_turn_example.
 
 Theorem C20_eigen_max : forall v00 v01 v02 v03 v10 v11 v12 v13 v20 v21 v22 v23 v30 v31 v32 v33 d0 d1 d2 d3 : R,
   v00 * v00 + v01 * v01 + v02 * v02 + v03 * v03 = 1 -> v10 * v10 + v11 * v11 + v12 * v12 + v13 * v13 = 1 ->
